@@ -67,19 +67,11 @@ func constBool(n *node) (b, ok bool) {
 	return false, false
 }
 
-// isBinVar returns true if node n denotes a variable of a binary package.
-func isBinVar(n *node) bool {
-	if n.kind != selectorExpr || n.action != aGetSym || len(n.child) == 0 || !n.rval.IsValid() {
-		return false
-	}
-	s := n.child[0].sym
-	return s != nil && s.kind == pkgSym && s.typ != nil && s.typ.cat == binPkgT && n.rval.CanAddr()
-}
-
 // constOperand returns the value of a constant operand, untyped or typed, as a constant.
 func constOperand(n *node) (c constant.Value, ok bool) {
 	v := n.rval
-	if !v.IsValid() || isBinVar(n) {
+	if !v.IsValid() {
+		// Not a constant (the value of a variable is only known at run time).
 		return nil, false
 	}
 	if isConstantValue(v.Type()) {
@@ -2020,6 +2012,15 @@ func (interp *Interpreter) cfg(root *node, sc *scope, importPath, pkgName string
 						n.typ = valueTOf(s.Type().Elem())
 					} else {
 						n.typ = valueTOf(fixPossibleConstType(s.Type()), withUntyped(isValueUntyped(s)))
+						if s.CanAddr() {
+							// A variable: its value is only known when the statement runs. The node
+							// gets a frame location which designates the variable itself.
+							n.val = s
+							n.findex = sc.add(n.typ)
+							n.action = aGetSym
+							n.gen = getBinVar
+							break
+						}
 						n.rval = s
 						if pkg == "unsafe" && (name == "AlignOf" || name == "Offsetof" || name == "Sizeof") {
 							n.sym = &symbol{kind: bltnSym, node: n, rval: s}
